@@ -140,7 +140,8 @@ pub fn scenario(r: &mut Report, p: &Params) {
     w.run_for(5 * SEC);
     // (b) the first node learnt every server that bootstrapped through it
     let servers: Vec<SocketAddrV4> = nodes.iter().zip(&is_server).filter(|(_, s)| **s).map(|(n, _)| n.addr).collect();
-    if p.servers >= 2 {
+    // (bucket capacity - 20 per distance - cannot bind with at most 20 other servers)
+    if p.servers >= 2 && p.servers <= 21 {
         let known0: HashSet<String> = w.block_on(nodes[0].adht.to_bootstrap(), 5 * SEC).unwrap_or_default().into_iter().collect();
         let missing: Vec<String> = servers.iter().skip(1).map(|a| a.to_string()).filter(|a| !known0.contains(a)).collect();
         if !missing.is_empty() {
